@@ -1,0 +1,9 @@
+//go:build verif
+
+package crl
+
+//@ func CRLRevocationChecker.IsRevoked
+//@   props C01 C10
+//@   requires c != nil && clientCertificate != nil
+//@   assigns X.crlrepo, X.fs, X.net
+//@   ensures err == nil ==> ret != nil
